@@ -1,7 +1,8 @@
 """Profiles of `RuleBlock.activate` and the two helpers of the activation methods (`Activation.assert_is_not_vector`,
 `Threshold.Comparator.operator`), of the factories (`ConstructionFactory.construct`, `CloningFactory.copy`,
-`FunctionFactory.operators` / `functions` / `_precedence`) and of the two factory look-ups of the FLL importer
-(`FllImporter.tnorm` / `snorm`).  Externals: `lean/FlVerif/Op/PyExtBlockAct.lean`.
+`FunctionFactory.operators` / `functions` / `_precedence`), of the two factory look-ups of the FLL importer
+(`FllImporter.tnorm` / `snorm`), and of `Engine.infer_type`, `Variable.highest_membership`, `Variable.fuzzify` (models
+`lean/FlVerif/Op/Infer.lean`).  Externals: `lean/FlVerif/Op/PyExtBlockAct.lean`.
 
 The activation methods are tied on their own (`base.py`: `act(...)`); there `self.assert_is_not_vector(d)` and
 `self.comparator.operator(d, t)` are externals (`rule.vector` / `cmp.eval`).  Here the two callees are translated
@@ -110,8 +111,73 @@ FACTORY_PROFILES = [
     } for kind in ("tnorm", "snorm")
 ]
 
-PROFILES = ACT_PROFILES + FACTORY_PROFILES
+# ---------------------------------------------------------------- Engine.infer_type, Variable.highest_membership / fuzzify
+# Models: lean/FlVerif/Op/Infer.lean.  An output variable is its defuzzifier (`Op.Infer.Defuzz`, with the result of
+# `defuzzifier.infer_type(variable)` for a weighted one), a rule block is the flag "its implication is the
+# AlgebraicProduct"; the list `reasons` (texts for the user) is not translated.
+DEFUZZ = "Op.Infer.Defuzz"
+ETYPE = "Op.Infer.EType"
+WTYPE = "Op.Weighted.WType"
+ACTIVATED = "T × X Rat"
+INFER_PROFILES = [
+    {
+        "name": "Engine_infer_type", "module": "fuzzylite.engine", "object": "Engine.infer_type", "file": "CodeInfer",
+        "params": [("e", "Op.Infer.Engine")],
+        "skip_if": ["reasons is None"], "skip_stmts": ["reasons.append(_0)"],
+        "locals": {"mamdani": "Bool", "larsen": "Bool", "takagi_sugeno": "Bool", "tsukamoto": "Bool", "inverse_tsukamoto": "Bool",
+                   "hybrid": "Bool"},
+        "ret": ETYPE,
+        "externals": [
+            ("self.output_variables", "e.outputs", f"List {DEFUZZ}", True),
+            ("self.rule_blocks", "e.blocks", "List Op.Infer.Block", True),
+            ("isinstance(_0.defuzzifier, IntegralDefuzzifier)", "{0}.isIntegral", "Bool", True, [DEFUZZ]),
+            ("isinstance(_0.defuzzifier, WeightedDefuzzifier)", "{0}.isWeighted", "Bool", True, [DEFUZZ]),
+            ("_0.defuzzifier.infer_type(_0)", "(Op.Infer.Defuzz.weightedType {0})", WTYPE, False, [DEFUZZ]),
+            ("_0.defuzzifier", "{0}.present", "Bool", True, [DEFUZZ]),
+            ("isinstance(_0.implication, AlgebraicProduct)", "{0}.product", "Bool", True, ["Op.Infer.Block"]),
+            ("WeightedDefuzzifier.Type.TakagiSugeno", f"{WTYPE}.takagiSugeno", WTYPE, True),
+            ("WeightedDefuzzifier.Type.Tsukamoto", f"{WTYPE}.tsukamoto", WTYPE, True),
+            ("WeightedDefuzzifier.Type.Automatic", f"{WTYPE}.automatic", WTYPE, True),
+        ] + [(f"Engine.Type.{py}", f"{ETYPE}.{ln}", ETYPE, True) for py, ln in (
+            ("Unknown", "unknown"), ("Mamdani", "mamdani"), ("Larsen", "larsen"), ("TakagiSugeno", "takagiSugeno"),
+            ("Tsukamoto", "tsukamoto"), ("InverseTsukamoto", "inverseTsukamoto"), ("Hybrid", "hybrid"))],
+    },
+    {
+        # a term is any type `T`; mu: what `term.membership(x)` returns or raises; an `Activated` is the pair (term, degree)
+        "name": "Variable_highest_membership", "module": "fuzzylite.variable", "object": "Variable.highest_membership",
+        "file": "CodeInfer", "type_params": ["T"],
+        "params": [("mu", "T → Py.M (X Rat)"), ("terms", "List T")],
+        "locals": {"highest": f"Option ({ACTIVATED})", "term": "T", "degree": "X Rat"},
+        "ret": ACTIVATED,
+        "externals": [
+            ("self.terms", "terms", "List T", True),
+            ("scalar(_0)", "{0}", "X Rat", True, ["X Rat"]),
+            ("_0.membership(x)", "(mu {0})", "X Rat", False, ["T"]),
+            ("highest.degree", "(Py.deref σ.highest >>= fun h => .ok h.2)", "X Rat", False),
+            ("Activated(_0, _1)", "({0}, {1})", ACTIVATED, True, ["T", "X Rat"]),
+        ],
+    },
+    {
+        # scalar `x`; fv: the text `Activated.fuzzy_value(padding)` of an activated term
+        "name": "Variable_fuzzify", "module": "fuzzylite.variable", "object": "Variable.fuzzify", "file": "CodeInfer",
+        "type_params": ["T"],
+        "params": [("mu", "T → Py.M (X Rat)"), ("fv", f"{ACTIVATED} → Bool → String"), ("terms", "List T")],
+        "locals": {"fuzzy_value": "String", "index": "Nat", "term": "T", "activated_term": ACTIVATED},
+        "ret": "String",
+        "externals": [
+            ("self.terms", "terms", "List T", True),
+            ("array('', dtype=np.str_)", '""', "String", True),
+            ("_0.membership(x)", "(mu {0})", "X Rat", False, ["T"]),
+            ("Activated(_0, _1)", "({0}, {1})", ACTIVATED, True, ["T", "X Rat"]),
+            ("np.char.add(_0, _1)", "({0} ++ {1})", "String", True, ["String", "String"]),
+            ("_0.fuzzy_value(padding=_1)", "(fv {0} {1})", "String", True, [ACTIVATED, "Bool"]),
+        ],
+    },
+]
+
+PROFILES = ACT_PROFILES + FACTORY_PROFILES + INFER_PROFILES
 FILES = {
+    "CodeInfer": {"imports": ["FlVerif.Op.PyExtBlockAct"]},
     "CodeBlockAct": {"imports": ["FlVerif.Op.PyExtBlockAct", "FlVerif.Gen.CodeActivation"]},
     "CodeFactory": {"imports": ["FlVerif.Op.PyExtBlockAct"]},
 }
